@@ -143,9 +143,71 @@ def run_shared(case, res):
     res["sample"] = dict(case)
 
 
+def run_summary(case, res):
+    """a real design with each flow specification: the summary states the per-borehole mass flow L/s x density / 1000 (system: / N),
+    the same effective borehole resistance as the exchanger, and - with the two specifications describing the same flow per
+    borehole - the same field, height and temperatures"""
+    import json as _json
+    import re
+
+    from vf import physics
+
+    pipe, method = case["pipe"], case["method"]
+    v_bh = case["v"]
+    m1 = physics.manager(method, pipe=pipe, flow="borehole", load=case["load"], flow_rate=v_bh)
+    e1 = physics.find(m1)
+    res["evals"] += 1
+    if e1 is not None:
+        res.bump("summary_design_failed")
+        return
+    n = len(m1._search.ghe.gFunction.bore_locations)
+    rho = m1._fluid.rho
+    runs = [("per-borehole", m1, v_bh * rho / 1000.0)]
+    # the system specification that describes the same flow per borehole for the field just found
+    m2 = physics.manager(method, pipe=pipe, flow="system", load=case["load"], flow_rate=v_bh * n)
+    e2 = physics.find(m2)
+    res["evals"] += 1
+    if e2 is None:
+        n2 = len(m2._search.ghe.gFunction.bore_locations)
+        runs.append(("system", m2, v_bh * n / n2 * rho / 1000.0))
+    for tag, m, want in runs:
+        d, files = physics.write_outputs(m, tag="c20")
+        try:
+            js = _json.loads(files["SimulationSummary.json"])
+            got = js["ghe_system"]["fluid_mass_flow_rate_per_borehole"]["value"]
+            if abs(got - want) > 1e-9 * want:
+                res["violations"].append(core.viol("summary_mass_flow_per_borehole_wrong", dict(case, spec=tag), observed=got, expected=want,
+                                                   msg=f"{method}/{pipe}, {tag} flow: the summary states {got} kg/s per borehole, L/s x density / 1000 is {want}", spec=tag, pipe=pipe, where="json"))
+            mt = re.search(r"Mass Flow Rate Per Borehole, kg/s:\s+([-0-9.eE+]+)", files["SimulationSummary.txt"])
+            if mt is None or abs(float(mt.group(1)) - want) > 6e-4:
+                res["violations"].append(core.viol("summary_mass_flow_per_borehole_wrong", dict(case, spec=tag), observed=mt.group(1) if mt else None, expected=want,
+                                                   msg=f"{method}/{pipe}, {tag} flow: the text summary states {mt.group(1) if mt else None} kg/s per borehole, expected {want:.3f}", spec=tag, pipe=pipe, where="txt"))
+            rb_sum = js["ghe_system"]["effective_borehole_resistance"]["value"]
+            rb_obj = m._search.ghe.bhe.calc_effective_borehole_resistance()
+            if abs(rb_sum - rb_obj) > 1e-12 * abs(rb_obj):
+                res["violations"].append(core.viol("summary_borehole_resistance_wrong", dict(case, spec=tag), observed=rb_sum, expected=rb_obj, msg=f"{method}/{pipe}, {tag}: summary R_b* {rb_sum}, exchanger {rb_obj}", spec=tag))
+        finally:
+            physics.cleanup(d)
+    if len(runs) == 2 and n2 == n:
+        s1, s2 = physics.signature(m1), physics.signature(m2)
+        for k in ("coords", "H", "max_eft", "min_eft"):
+            a, b = s1[k], s2[k]
+            same = a == b if k == "coords" else abs(float.fromhex(a) - float.fromhex(b)) <= 1e-6 * max(1.0, abs(float.fromhex(a)))
+            if not same:
+                res["violations"].append(core.viol("designs_differ_between_flow_specifications", case, msg=f"{method}/{pipe}: {k} differs between {v_bh} L/s per borehole and {v_bh * n} L/s for the system of {n} boreholes", what=k))
+                break
+        res.outcome("summary_pairs_same_field")
+    res.outcome("summaries")
+    res["nontrivial"] += 1
+    res["sample"] = dict(case)
+
+
 def run_case(case):
     res = core.Result(evals=0)
     fam = case.get("family")
+    if fam == "summary":
+        run_summary(case, res)
+        return res
     if fam == "shared":
         run_shared(case, res)
         return res
@@ -172,6 +234,10 @@ def main(run: core.Run, only=None):
     seqs = [[272, 289, 288, 306], [2, 3, 2, 1], [400, 399, 380, 361], [16, 17, 18, 16], [100, 99, 81, 90]]
     shared = [{"family": "shared", "pipe": p, "fluid": list(f), "v_sys": v, "Ns": sq} for p in (PIPES if not quick else PIPES[:1] + PIPES[-1:]) for f in fluids[:1] for v in (31.2, 0.9) for sq in seqs]
     run.drive(shared, family="shared-media-sequences")
+    summ = [{"family": "summary", "method": "nearsquare", "pipe": p, "v": 0.3, "load": "office"} for p in (("double_parallel", "single") if quick else PIPES)]
+    if not quick:
+        summ += [{"family": "summary", "method": mth, "pipe": "double_parallel", "v": 0.35, "load": "mirror"} for mth in ("rectangle", "birectangle", "rowwise")]
+    run.drive(summ, family="summaries-of-real-designs", chunksize=1)
     chunks = []
     for method in ("nearsquare", "rectangle"):
         for n in range(1, (33 if not quick else 13)):
@@ -191,5 +257,5 @@ def main(run: core.Run, only=None):
         bounds={"N": "1..400 (all) for the arithmetic part", "N_objects": ns, "flows_Lps": flows, "fluids": [f[0] for f in fluids], "pipes": PIPES},
         assumptions=["retrieve_flow only reads flow_type and V_flow of its record (it is called unbound on a minimal record)",
                      "temperatures are compared on a hand-built monotone g-function table, so N = 400 needs no pygfunction run"],
-        require_outcomes=("arith", "objects", "shared_media_sequences"),
+        require_outcomes=("arith", "objects", "shared_media_sequences", "summaries"),
     )
